@@ -41,14 +41,34 @@ var sgFuel = map[string][]string{
 }
 
 const (
-	stInt  = "int"
-	stBool = "bool"
-	stPt   = "pt"   // [2]float64
-	stPts  = "pts"  // [][2]float64
-	stInts = "ints" // []int
+	stInt    = "int"
+	stBool   = "bool"
+	stPt     = "pt"     // [2]float64
+	stPts    = "pts"    // [][2]float64
+	stInts   = "ints"   // []int
+	stRings  = "rings"  // [][][2]float64
+	stPtPtr  = "ptptr"  // *[2]float64: nil or a point
+	stNil    = "nil"    // the untyped nil
+	stOpaque = "opaque" // a parameter that is only handed on to a panic helper
 )
 
-var sgCoq = map[string]string{stInt: "Z", stBool: "bool", stPt: "pt", stPts: "(list pt)", stInts: "(list Z)"}
+var sgCoq = map[string]string{stInt: "Z", stBool: "bool", stPt: "pt", stPts: "(list pt)", stInts: "(list Z)",
+	stRings: "(list (list pt))", stPtPtr: "(option pt)"}
+
+// helpers of snap.go whose whole body is a panic: the error value of the model
+var sgPanics = map[string]string{"panicNoPointsFoundForVertices": "NoPointsFound"}
+
+// functions that are MODELLED, not translated (float predicates of go-spatial/geom, a generic helper)
+type sgExternal struct {
+	params []string
+	result string
+	coq    string
+}
+
+var sgExternals = map[string]sgExternal{
+	"windingOrderIsCorrect":     {[]string{stPts, stBool}, stBool, "windingOrderIsCorrect"}, // Snap/Model.v (winding.Order of the geom library)
+	"mapslicehelp.ReverseClone": {[]string{stPts}, stPts, "@rev pt"},                        // a reversed copy
+}
 
 type sgVal struct {
 	code string
@@ -59,13 +79,17 @@ type sgVal struct {
 type sgEnv struct {
 	order []string
 	vars  map[string]string
-	made  map[string]bool // locals created by make and not aliased since
+	made  map[string]bool   // locals created by make and not aliased since
+	deref map[string]string // pointer variables known to be non-nil here -> the name of the value they point to
 }
 
 func (e *sgEnv) clone() *sgEnv {
-	c := &sgEnv{order: append([]string{}, e.order...), vars: map[string]string{}, made: map[string]bool{}}
+	c := &sgEnv{order: append([]string{}, e.order...), vars: map[string]string{}, made: map[string]bool{}, deref: map[string]string{}}
 	for k, v := range e.vars {
 		c.vars[k] = v
+	}
+	for k, v := range e.deref {
+		c.deref[k] = v
 	}
 	for k, v := range e.made {
 		c.made[k] = v
@@ -95,15 +119,18 @@ type sgCtx struct {
 }
 
 type sg struct {
-	fset    *token.FileSet
-	funcs   map[string]*ast.FuncDecl
-	sigs    map[string]*sgSig
-	emitted map[string]bool
-	cur     *sgSig
-	n       int
-	loopN   int
-	pre     []string
-	out     strings.Builder
+	fset          *token.FileSet
+	funcs         map[string]*ast.FuncDecl
+	sigs          map[string]*sgSig
+	emitted       map[string]bool
+	imports       map[string]bool // package names imported by snap.go that externals may refer to
+	useExternals  bool
+	panicsChecked map[string]bool
+	cur           *sgSig
+	n             int
+	loopN         int
+	pre           []string
+	out           strings.Builder
 }
 
 func (g *sg) fresh(p string) string {
@@ -123,6 +150,10 @@ func (g *sg) goType(x ast.Expr) (string, error) {
 		return stPts, nil
 	case "[]int":
 		return stInts, nil
+	case "[][][2]float64":
+		return stRings, nil
+	case "*[2]float64":
+		return stPtPtr, nil
 	}
 	return "", fmt.Errorf("unsupported type %s", types.ExprString(x))
 }
@@ -133,6 +164,8 @@ func sgElem(ty string) (string, bool) {
 		return stPt, true
 	case stInts:
 		return stInt, true
+	case stRings:
+		return stPts, true
 	}
 	return "", false
 }
@@ -140,6 +173,14 @@ func sgElem(ty string) (string, bool) {
 func (g *sg) conv(v sgVal, ty string) (sgVal, error) {
 	if v.ty == ty {
 		return sgVal{code: v.code, ty: ty}, nil
+	}
+	if v.ty == stNil {
+		switch ty {
+		case stPts, stInts, stRings: // a nil slice is an empty slice for len, range, append and ==nil is not used
+			return sgVal{code: "[]", ty: ty}, nil
+		case stPtPtr:
+			return sgVal{code: "None", ty: ty}, nil
+		}
 	}
 	return sgVal{}, fmt.Errorf("type mismatch: %s used as %s", v.ty, ty)
 }
@@ -164,7 +205,13 @@ func (g *sg) expr(env *sgEnv, x ast.Expr, binds *[]string) (sgVal, error) {
 			return sgVal{code: x.Name, ty: stBool}, nil
 		}
 		if t, ok := env.vars[x.Name]; ok {
+			if t == stOpaque {
+				return sgVal{}, fmt.Errorf("the parameter %s may only be passed to a panic helper", x.Name)
+			}
 			return sgVal{code: "v_" + x.Name, ty: t}, nil
+		}
+		if x.Name == "nil" {
+			return sgVal{code: "nil", ty: stNil}, nil
 		}
 		return sgVal{}, fmt.Errorf("unknown identifier %s", x.Name)
 	case *ast.UnaryExpr:
@@ -182,20 +229,40 @@ func (g *sg) expr(env *sgEnv, x ast.Expr, binds *[]string) (sgVal, error) {
 			return sgVal{code: "(- " + v.code + ")", ty: stInt}, nil
 		}
 		return sgVal{}, fmt.Errorf("unsupported unary %s on %s", x.Op, v.ty)
+	case *ast.StarExpr:
+		if id, ok := x.X.(*ast.Ident); ok && env.vars[id.Name] == stPtPtr {
+			if n, ok := env.deref[id.Name]; ok {
+				return sgVal{code: n, ty: stPt}, nil
+			}
+			return sgVal{}, fmt.Errorf("*%s is not guarded by %s != nil", id.Name, id.Name)
+		}
+		return sgVal{}, fmt.Errorf("unsupported dereference")
 	case *ast.BinaryExpr:
+		// p != nil / p == nil
+		if x.Op == token.NEQ || x.Op == token.EQL {
+			if id, ok := x.X.(*ast.Ident); ok && env.vars[id.Name] == stPtPtr {
+				if n, ok := x.Y.(*ast.Ident); ok && n.Name == "nil" {
+					if _, shadow := env.vars["nil"]; !shadow {
+						some, none := "true", "false"
+						if x.Op == token.EQL {
+							some, none = "false", "true"
+						}
+						return sgVal{code: fmt.Sprintf("(match v_%s with Some _ => %s | None => %s end)", id.Name, some, none), ty: stBool}, nil
+					}
+				}
+			}
+		}
+		if x.Op == token.LAND || x.Op == token.LOR {
+			return g.shortCircuit(env, x, binds)
+		}
 		a, err := g.expr(env, x.X, binds)
 		if err != nil {
 			return sgVal{}, err
 		}
-		var rb []string
-		b, err := g.expr(env, x.Y, &rb)
+		b, err := g.expr(env, x.Y, binds)
 		if err != nil {
 			return sgVal{}, err
 		}
-		if (x.Op == token.LAND || x.Op == token.LOR) && len(rb) > 0 {
-			return sgVal{}, fmt.Errorf("%s with a right operand that can panic is not supported (short circuit)", x.Op)
-		}
-		*binds = append(*binds, rb...)
 		if a.ty != b.ty {
 			return sgVal{}, fmt.Errorf("mismatched operand types %s %s %s", a.ty, x.Op, b.ty)
 		}
@@ -203,10 +270,6 @@ func (g *sg) expr(env *sgEnv, x ast.Expr, binds *[]string) (sgVal, error) {
 			return sgVal{code: "(" + a.code + " " + op + " " + b.code + ")", ty: ty}, nil
 		}
 		switch {
-		case a.ty == stBool && x.Op == token.LAND:
-			return in("&&", stBool)
-		case a.ty == stBool && x.Op == token.LOR:
-			return in("||", stBool)
 		case a.ty == stInt:
 			switch x.Op {
 			case token.ADD:
@@ -254,8 +317,8 @@ func (g *sg) expr(env *sgEnv, x ast.Expr, binds *[]string) (sgVal, error) {
 		*binds = append(*binds, fmt.Sprintf("do %s <- idx %s %s;", t, a.code, i.code))
 		return sgVal{code: t, ty: el}, nil
 	case *ast.SliceExpr:
-		if x.Slice3 || x.High != nil || x.Low == nil {
-			return sgVal{}, fmt.Errorf("only the slice form a[lo:] is supported")
+		if x.Slice3 {
+			return sgVal{}, fmt.Errorf("the 3-index slice is not supported")
 		}
 		a, err := g.expr(env, x.X, binds)
 		if err != nil {
@@ -264,20 +327,46 @@ func (g *sg) expr(env *sgEnv, x ast.Expr, binds *[]string) (sgVal, error) {
 		if _, ok := sgElem(a.ty); !ok {
 			return sgVal{}, fmt.Errorf("slice of %s", a.ty)
 		}
-		lo, err := g.expr(env, x.Low, binds)
-		if err != nil {
-			return sgVal{}, err
+		// a[lo:hi] is checked against len(a): Go checks hi against cap(a), so where Go would re-extend a slice
+		// into its backing array the translation says Err SliceBounds (the tie lemmas show it does not happen)
+		lo, hi := sgVal{code: "0", ty: stInt}, sgVal{code: "(zlen " + a.code + ")", ty: stInt}
+		if x.Low != nil {
+			if lo, err = g.expr(env, x.Low, binds); err != nil {
+				return sgVal{}, err
+			}
 		}
-		if lo.ty != stInt {
-			return sgVal{}, fmt.Errorf("slice bound of type %s", lo.ty)
+		if x.High != nil {
+			if hi, err = g.expr(env, x.High, binds); err != nil {
+				return sgVal{}, err
+			}
+		}
+		if lo.ty != stInt || hi.ty != stInt {
+			return sgVal{}, fmt.Errorf("slice bound of type %s, %s", lo.ty, hi.ty)
 		}
 		t := g.fresh("t")
-		*binds = append(*binds, fmt.Sprintf("do %s <- slice %s %s (zlen %s);", t, a.code, lo.code, a.code))
+		*binds = append(*binds, fmt.Sprintf("do %s <- slice %s %s %s;", t, a.code, lo.code, hi.code))
 		return sgVal{code: t, ty: a.ty}, nil
 	case *ast.CompositeLit:
 		ty, err := g.goType(x.Type)
 		if err != nil {
 			return sgVal{}, err
+		}
+		if ty == stRings {
+			var items []string
+			for _, e := range x.Elts {
+				if _, keyed := e.(*ast.KeyValueExpr); keyed {
+					return sgVal{}, fmt.Errorf("keyed slice literal")
+				}
+				v, err := g.expr(env, e, binds)
+				if err != nil {
+					return sgVal{}, err
+				}
+				if v, err = g.conv(v, stPts); err != nil {
+					return sgVal{}, err
+				}
+				items = append(items, v.code)
+			}
+			return sgVal{code: "[" + strings.Join(items, "; ") + "]", ty: stRings}, nil
 		}
 		if ty != stInts || len(x.Elts) != 0 {
 			return sgVal{}, fmt.Errorf("unsupported composite literal")
@@ -287,6 +376,76 @@ func (g *sg) expr(env *sgEnv, x ast.Expr, binds *[]string) (sgVal, error) {
 		return g.call(env, x, binds)
 	}
 	return sgVal{}, fmt.Errorf("unsupported expression %T", x)
+}
+
+// a && b, a || b: b is evaluated (and can panic) only when a does not decide; `p != nil && b` makes *p available in b
+func (g *sg) shortCircuit(env *sgEnv, x *ast.BinaryExpr, binds *[]string) (sgVal, error) {
+	a, err := g.expr(env, x.X, binds)
+	if err != nil {
+		return sgVal{}, err
+	}
+	if a.ty != stBool {
+		return sgVal{}, fmt.Errorf("%s on %s", x.Op, a.ty)
+	}
+	envB := env
+	guard := ""
+	if x.Op == token.LAND {
+		if c, ok := x.X.(*ast.BinaryExpr); ok && c.Op == token.NEQ {
+			if id, ok := c.X.(*ast.Ident); ok && env.vars[id.Name] == stPtPtr {
+				if n, ok := c.Y.(*ast.Ident); ok && n.Name == "nil" {
+					envB = env.clone()
+					guard = g.fresh("p")
+					envB.deref[id.Name] = guard
+					a.code = "v_" + id.Name
+				}
+			}
+		}
+	}
+	var rb []string
+	b, err := g.expr(envB, x.Y, &rb)
+	if err != nil {
+		return sgVal{}, err
+	}
+	if b.ty != stBool {
+		return sgVal{}, fmt.Errorf("%s on %s", x.Op, b.ty)
+	}
+	if len(rb) == 0 && guard == "" {
+		op := "&&"
+		if x.Op == token.LOR {
+			op = "||"
+		}
+		return sgVal{code: "(" + a.code + " " + op + " " + b.code + ")", ty: stBool}, nil
+	}
+	c := g.fresh("c")
+	inner := sgJoin(rb, "Ok "+b.code)
+	switch {
+	case guard != "":
+		*binds = append(*binds, fmt.Sprintf("do %s <- match %s with\n    | Some %s => (%s)\n    | None => Ok false\n    end;", c, a.code, guard, inner))
+	case x.Op == token.LAND:
+		*binds = append(*binds, fmt.Sprintf("do %s <- (if %s then (%s) else Ok false);", c, a.code, inner))
+	default:
+		*binds = append(*binds, fmt.Sprintf("do %s <- (if %s then Ok true else (%s));", c, a.code, inner))
+	}
+	return sgVal{code: c, ty: stBool}, nil
+}
+
+func (g *sg) external(env *sgEnv, key string, x *ast.CallExpr, binds *[]string) (sgVal, error) {
+	ext := sgExternals[key]
+	if len(x.Args) != len(ext.params) || x.Ellipsis != token.NoPos {
+		return sgVal{}, fmt.Errorf("%s: wrong number of arguments", key)
+	}
+	var as []string
+	for i, a := range x.Args {
+		v, err := g.expr(env, a, binds)
+		if err != nil {
+			return sgVal{}, err
+		}
+		if v, err = g.conv(v, ext.params[i]); err != nil {
+			return sgVal{}, fmt.Errorf("%s: argument %d: %v", key, i+1, err)
+		}
+		as = append(as, v.code)
+	}
+	return sgVal{code: "(" + ext.coq + " " + strings.Join(as, " ") + ")", ty: ext.result}, nil
 }
 
 func sgStaticallyNonNeg(x ast.Expr) bool {
@@ -313,12 +472,27 @@ func sgStaticallyNonNeg(x ast.Expr) bool {
 }
 
 func (g *sg) call(env *sgEnv, x *ast.CallExpr, binds *[]string) (sgVal, error) {
+	if sel, ok := x.Fun.(*ast.SelectorExpr); ok {
+		if pkg, ok := sel.X.(*ast.Ident); ok {
+			key := pkg.Name + "." + sel.Sel.Name
+			if _, isExt := sgExternals[key]; isExt && g.imports[pkg.Name] {
+				if _, shadow := env.vars[pkg.Name]; !shadow {
+					return g.external(env, key, x, binds)
+				}
+			}
+		}
+	}
 	id, ok := x.Fun.(*ast.Ident)
 	if !ok || x.Ellipsis != token.NoPos {
 		return sgVal{}, fmt.Errorf("unsupported call %s", types.ExprString(x.Fun))
 	}
 	if _, shadow := env.vars[id.Name]; shadow {
 		return sgVal{}, fmt.Errorf("call of a variable %s", id.Name)
+	}
+	if _, isExt := sgExternals[id.Name]; isExt && g.useExternals {
+		if _, ok := g.funcs[id.Name]; ok {
+			return g.external(env, id.Name, x, binds)
+		}
 	}
 	switch id.Name {
 	case "len":
@@ -457,6 +631,8 @@ func sgTerminates(stmts []ast.Stmt) bool {
 		return true
 	case *ast.BranchStmt:
 		return s.Tok == token.BREAK && s.Label == nil
+	case *ast.ExprStmt:
+		return sgPanicCall(s) != ""
 	case *ast.IfStmt:
 		if s.Else == nil {
 			return false
@@ -465,6 +641,16 @@ func sgTerminates(stmts []ast.Stmt) bool {
 		return err == nil && sgTerminates(s.Body.List) && sgTerminates(eb)
 	}
 	return false
+}
+
+// sgPanicCall: the error value if the statement is a call of one of the panic helpers
+func sgPanicCall(s *ast.ExprStmt) string {
+	if c, ok := s.X.(*ast.CallExpr); ok {
+		if id, ok := c.Fun.(*ast.Ident); ok {
+			return sgPanics[id.Name]
+		}
+	}
+	return ""
 }
 
 func sgJoin(binds []string, tail string) string {
@@ -604,6 +790,17 @@ func (g *sg) callStmt(env *sgEnv, s *ast.ExprStmt, rest []ast.Stmt, k lcont, ctx
 	id, ok := c.Fun.(*ast.Ident)
 	if !ok {
 		return "", fmt.Errorf("unsupported call statement")
+	}
+	if e := sgPanicCall(s); e != "" {
+		if _, shadow := env.vars[id.Name]; shadow || !g.panicsChecked[id.Name] {
+			return "", fmt.Errorf("%s is not a checked panic helper", id.Name)
+		}
+		for _, a := range c.Args { // the arguments only feed the message; they must be plain variables (no effects)
+			if aid, ok := a.(*ast.Ident); !ok || env.vars[aid.Name] == "" {
+				return "", fmt.Errorf("%s: unsupported argument", id.Name)
+			}
+		}
+		return "Err " + e, nil // the statements that follow are not reached
 	}
 	sig, ok := g.sigs[id.Name]
 	if !ok || !g.emitted[id.Name] || sig.result != "" || sig.mutated < 0 {
@@ -927,7 +1124,12 @@ func (g *sg) signature(fd *ast.FuncDecl) (*sgSig, error) {
 	for _, f := range fd.Type.Params.List {
 		t, err := g.goType(f.Type)
 		if err != nil {
-			return nil, err
+			switch types.ExprString(f.Type) {
+			case "[2][2]float64", "pointindex.Level":
+				t = stOpaque
+			default:
+				return nil, err
+			}
 		}
 		if len(f.Names) == 0 {
 			return nil, fmt.Errorf("unnamed parameter")
@@ -987,11 +1189,15 @@ func (g *sg) function(name string) error {
 	}
 	g.sigs[name] = sig
 	g.cur, g.n, g.loopN, g.pre = sig, 0, 0, nil
-	env := &sgEnv{vars: map[string]string{}, made: map[string]bool{}}
+	env := &sgEnv{vars: map[string]string{}, made: map[string]bool{}, deref: map[string]string{}}
 	var params []string
 	for _, p := range sig.params {
 		if _, dup := env.vars[p.name]; dup || p.name == "_" {
 			return fmt.Errorf("%s: unsupported parameter name %s", name, p.name)
+		}
+		if p.ty == stOpaque { // not a parameter of the generated function
+			env.vars[p.name] = stOpaque
+			continue
 		}
 		env.declare(p.name, p.ty)
 		params = append(params, fmt.Sprintf("(v_%s : %s)", p.name, sgCoq[p.ty]))
@@ -1050,25 +1256,76 @@ func (g *sg) function(name string) error {
 	return nil
 }
 
-func genKmp(repo string) (string, error) {
-	g := &sg{fset: token.NewFileSet(), funcs: map[string]*ast.FuncDecl{}, sigs: map[string]*sgSig{}, emitted: map[string]bool{}}
+func sgLoad(repo string) (*sg, error) {
+	g := &sg{fset: token.NewFileSet(), funcs: map[string]*ast.FuncDecl{}, sigs: map[string]*sgSig{}, emitted: map[string]bool{},
+		imports: map[string]bool{}, panicsChecked: map[string]bool{}}
 	f, err := parser.ParseFile(g.fset, filepath.Join(repo, "snap/snap.go"), nil, 0)
 	if err != nil {
-		return "", err
+		return nil, err
+	}
+	for _, im := range f.Imports {
+		path := strings.Trim(im.Path.Value, `"`)
+		name := path[strings.LastIndex(path, "/")+1:]
+		if im.Name != nil {
+			name = im.Name.Name
+		}
+		if strings.HasSuffix(path, "/texel/mapslicehelp") {
+			g.imports[name] = true
+		}
 	}
 	for _, d := range f.Decls {
 		if fd, ok := d.(*ast.FuncDecl); ok && fd.Recv == nil {
 			g.funcs[fd.Name.Name] = fd
 		}
 	}
-	for _, shadowed := range []string{"len", "max", "min", "make", "append"} { // the builtins must be the builtins
+	for _, shadowed := range []string{"len", "max", "min", "make", "append", "nil", "panic"} { // the builtins must be the builtins
 		if _, ok := g.funcs[shadowed]; ok {
-			return "", fmt.Errorf("package snap declares its own %s", shadowed)
+			return nil, fmt.Errorf("package snap declares its own %s", shadowed)
 		}
+	}
+	// a panic helper is a function whose whole body is one call of panic
+	for name := range sgPanics {
+		fd, ok := g.funcs[name]
+		if !ok || fd.Body == nil || len(fd.Body.List) != 1 || (fd.Type.Results != nil && len(fd.Type.Results.List) > 0) {
+			continue
+		}
+		if es, ok := fd.Body.List[0].(*ast.ExprStmt); ok {
+			if c, ok := es.X.(*ast.CallExpr); ok {
+				if id, ok := c.Fun.(*ast.Ident); ok && id.Name == "panic" {
+					g.panicsChecked[name] = true
+				}
+			}
+		}
+	}
+	return g, nil
+}
+
+func genKmp(repo string) (string, error) {
+	g, err := sgLoad(repo)
+	if err != nil {
+		return "", err
 	}
 	g.out.WriteString("(* GENERATED by /verif/translator (G2, loops in the error monad) from snap/snap.go on every run -- do not edit. *)\n")
 	g.out.WriteString("From Coq Require Import ZArith List Bool.\nFrom Texel Require Import Prelude.Base Prelude.GoLoop.\nImport ListNotations.\nOpen Scope Z_scope.\n\n")
 	for _, name := range []string{"kmpTable", "kmpSearch", "kmpSearchAll"} {
+		if err := g.function(name); err != nil {
+			return "", err
+		}
+	}
+	return g.out.String(), nil
+}
+
+// genSnapSmall: cleanupNewVertices, asPointOrLine, ensureCorrectWindingOrder of snap.go -> gen/SnapSmallGen.v.
+// windingOrderIsCorrect (float predicate of the geom library) and mapslicehelp.ReverseClone are the model's.
+func genSnapSmall(repo string) (string, error) {
+	g, err := sgLoad(repo)
+	if err != nil {
+		return "", err
+	}
+	g.useExternals = true
+	g.out.WriteString("(* GENERATED by /verif/translator (G2, error monad) from snap/snap.go on every run -- do not edit. *)\n")
+	g.out.WriteString("From Coq Require Import ZArith List Bool.\nFrom Texel Require Import Prelude.Base Prelude.GoLoop Index.Model Snap.Model.\nImport ListNotations.\nOpen Scope Z_scope.\n\n")
+	for _, name := range []string{"cleanupNewVertices", "asPointOrLine", "ensureCorrectWindingOrder"} {
 		if err := g.function(name); err != nil {
 			return "", err
 		}
